@@ -4,6 +4,7 @@
 import TypelibModel.Drv.Codec
 import TypelibModel.Model.Leaf
 import TypelibModel.Model.Denote
+import TypelibModel.Model.JsonText
 open Lean
 namespace Typelib.Drv
 
@@ -57,6 +58,13 @@ def handleCore (st : St) (op : String) (j : Json) : Option (Except String (St ×
   | "strload" => some do
     let s ← j.getObjValAs? String "s"
     pure (st, resToJson (pySl (S s)))
+  | "json.render" => some do
+    -- the JSON printer of Model/JsonText.lean (both separator spellings), its domain predicate, and
+    -- the modelled strload applied to the compact text (Lemmas/JsonRT.lean: `.ok val` whenever plain)
+    let v ← valOfJson (← j.getObjVal? "val")
+    pure (st, Json.mkObj [("text", .str (U (renderJson v))), ("text_sp", .str (U (renderJsonSp v))),
+                          ("plain", .bool (plainWire v)), ("strload", resToJson (pySl (renderJson v))),
+                          ("strload_sp", resToJson (pySl (renderJsonSp v)))])
   | "isoformat" => some do
     let v ← valOfJson (← j.getObjVal? "val")
     pure (st, resToJson (marTemporal v))
